@@ -15,6 +15,8 @@ import hashlib
 
 VERIF = os.path.dirname(os.path.dirname(os.path.abspath(__file__)))
 REPO = os.environ.get("VERIF_REPO", "/repo")
+# evidence and replays of a run against anything but /repo itself (bin/mutant-test) are not kept in /verif
+OUT = VERIF if REPO == "/repo" else os.environ.get("VERIF_REPLAYS", "/tmp/verif-out-%d" % os.getpid())
 SPEC = os.path.join(VERIF, "spec")
 HARNESS = os.path.join(VERIF, "harness")
 TLC = os.path.join(VERIF, "bin", "tlc")
@@ -75,10 +77,20 @@ class Ctx:
 # ---------------------------------------------------------------- harness build
 
 def build_harness(ctx, race=False, tags="verif"):
-    """Rebuild the Go harness against /repo's current working tree."""
+    """Rebuild the Go harness against /repo's current working tree (VERIF_REPO, used by bin/mutant-test to point at a
+    scratch copy with a seeded change, selects another tree through an alternate module file)."""
     out = ctx.path("bin", "verif-race" if race else "verif")
-    shutil.copyfile(os.path.join(REPO, "go.sum"), os.path.join(HARNESS, "go.sum"))
     cmd = ["go", "build", "-tags", tags]
+    if REPO == "/repo":
+        shutil.copyfile(os.path.join(REPO, "go.sum"), os.path.join(HARNESS, "go.sum"))
+    else:
+        alt = ctx.path("alt.mod")
+        with open(os.path.join(HARNESS, "go.mod")) as f:
+            mod = f.read().replace("=> /repo", "=> " + REPO)
+        with open(alt, "w") as f:
+            f.write(mod)
+        shutil.copyfile(os.path.join(REPO, "go.sum"), ctx.path("alt.sum"))
+        cmd.append("-modfile=" + alt)
     if race:
         cmd.append("-race")
     cmd += ["-o", out, "./cmd/verif"]
@@ -461,7 +473,7 @@ def report_violation(ctx, key, what, replay_obj):
         ctx.violations.append({"key": key, "what": what, "replay": None})
         return True
     n = len(set(v["key"] for v in ctx.violations)) + 1
-    d = os.path.join(VERIF, "replays", ctx.pid)
+    d = os.path.join(OUT, "replays", ctx.pid)
     os.makedirs(d, exist_ok=True)
     path = os.path.join(d, "%d.json" % n)
     if n <= 20:
@@ -498,8 +510,8 @@ def write_evidence(ctx, level, coverage, assumptions):
         "wall_s": round(time.time() - ctx.t0, 2),
         "violations": len(ctx.violations),
     }
-    os.makedirs(os.path.join(VERIF, "evidence"), exist_ok=True)
-    with open(os.path.join(VERIF, "evidence", ctx.pid + ".json"), "w") as f:
+    os.makedirs(os.path.join(OUT, "evidence"), exist_ok=True)
+    with open(os.path.join(OUT, "evidence", ctx.pid + ".json"), "w") as f:
         json.dump(ev, f, indent=1, default=str)
 
 
@@ -543,7 +555,7 @@ def main_wrapper(pid, fn):
     ctx = Ctx(pid, tier)
     ctx.replay = replay
     # clear old replays of this property
-    shutil.rmtree(os.path.join(VERIF, "replays", pid), ignore_errors=True)
+    shutil.rmtree(os.path.join(OUT, "replays", pid), ignore_errors=True)
     try:
         fn(ctx)
     except Undecided as e:
